@@ -76,15 +76,19 @@ void Ledger::do_free(void* p) {
     if (!p) { free_null++; return; }
     auto it = live.find(p);
     if (it == live.end()) {
-        bad_free++;
-        if (bad_free_note.empty()) bad_free_note = fmt("manager %d: release of %p which is not a live block of this manager", id, p);
+        bad_free++; last_bad_ptr = p;
+        bool twice = dead.find(p) != dead.end(); if (twice) double_release++;
+        if (bad_free_note.empty()) bad_free_note = twice ? fmt("manager %d: %p released a second time", id, p) : fmt("manager %d: release of %p which is not a live block of this manager", id, p);
         return;     // do not forward: keeps the process alive so the event is reported, not crashed on
     }
     if (poison_on_free) memset(p, 0xDD, it->second);
     live_bytes -= it->second;
+    size_t n = it->second;
     live.erase(it); releases++;
-    raw_free(p);
+    if (quarantine) dead[p] = n; else raw_free(p);
 }
+void Ledger::drain_quarantine() { for (auto& kv : dead) raw_free(kv.first); dead.clear(); }
+Ledger::~Ledger() { drain_quarantine(); }
 static void* L_malloc(UriMemoryManager* m, size_t n) { CbScope cb; Ledger* L = (Ledger*)m->userData; maybe_yield(L); if (L->should_fail()) return nullptr; return L->do_alloc(n, false); }
 static void* L_calloc(UriMemoryManager* m, size_t a, size_t b) {
     CbScope cb; Ledger* L = (Ledger*)m->userData; maybe_yield(L);
@@ -116,7 +120,7 @@ Str Ledger::describe_live() const {
     for (auto& kv : live) { if (n++ >= 6) { s += " ..."; break; } s += fmt(" %p(%zu)", kv.first, kv.second); }
     return fmt("%zu block(s) outstanding:%s", live.size(), s.c_str());
 }
-void Ledger::release_all() { for (auto& kv : live) raw_free(kv.first); live.clear(); live_bytes = 0; }
+void Ledger::release_all() { for (auto& kv : live) raw_free(kv.first); live.clear(); live_bytes = 0; drain_quarantine(); }
 
 // ---------------------------------------------------------------- libc interposer
 LibcWatch& libc_watch() { static LibcWatch w{
